@@ -1,4 +1,7 @@
 import Driver.Sexp
+import Plenc.Spec.Format
+import Plenc.World
+import Plenc.Alias
 import Plenc.JSONOut
 import Plenc.Intern
 /-
@@ -35,8 +38,69 @@ def parseCall : Sexp → Option JSONOut.Call
   | .list [.atom "time", .atom _, .atom _, .atom h] => (parseHex h).map .tok
   | _ => none
 
+/-- one op of a `world` script against the multi-instance model (Plenc/World.lean). -/
+def worldOp (w : World.World) (o : Sexp) : World.World × String :=
+  let idx (a : String) : Nat := a.toNat?.getD 999
+  match o with
+  | .list [.atom "new", .atom fl] =>
+    let (w', out) := World.step w (.newInstance (fl.toList.getD 0 '0' == '1') (fl.toList.getD 1 '0' == '1'))
+    (w', match out with | .created id => toString id | _ => "?")
+  | .list [.atom "reg", .atom i, .atom n, .atom t, .atom c] =>
+    match parseHexStr n, parseHexStr t, parseScalarTy c with
+    | some n, some t, some c =>
+      let (w', out) := World.step w (.register (idx i) n t c)
+      (w', match out with | .done => "-" | .late => "late" | _ => "?")
+    | _, _, _ => (w, "bad-op")
+  | .list [.atom "null", .atom i] =>
+    let (w', out) := World.step w (.addNull (idx i))
+    (w', match out with | .done => "-" | .late => "late" | _ => "?")
+  | .list [.atom "enc", .atom i, td, v] =>
+    match parseTyDef td, parseVal v with
+    | some d, some v =>
+      let (w1, oc) := World.step w (.codecFor (idx i) d "")
+      (match oc with
+       | .codec (.ok ty) =>
+         let v := coerceIn ty v
+         let (w2, ob) := World.step w1 (.marshal (idx i) d v)
+         (match ob with
+          | .bytes (.ok data) =>
+            let (w3, ov) := World.step w2 (.unmarshal (idx i) d data ty.zero)
+            (match ov with
+             | .val (.ok r) => (w3, hexOf data ++ " " ++ showValT ty r)
+             | _ => (w3, hexOf data ++ " err"))
+          | _ => (w2, "err"))
+       | _ => (w1, "err"))
+    | _, _ => (w, "bad-op")
+  | .list [.atom "cft", .atom i, td, .atom t] =>
+    match parseTyDef td, parseHexStr t with
+    | some d, some t =>
+      let (w', out) := World.step w (.codecFor (idx i) d t)
+      (w', match out with | .codec (.ok ty) => showTyD 5 ty | _ => "err")
+    | _, _ => (w, "bad-op")
+  | _ => (w, "bad-op")
+
 def runOp (s : Sexp) : String :=
   match s with
+  -- C17: (world OP…)
+  | .list (.atom "world" :: ops) =>
+    let (_, outs) := ops.foldl (fun (acc : World.World × List String) o =>
+      let (w', s) := worldOp acc.1 o; (w', acc.2 ++ [s])) (World.init, [])
+    String.intercalate " | " outs
+  -- C11: (alias cfg T tag V): decode, then overwrite the input buffer, then read the decoded value again
+  | .list [.atom "alias", cfgS, td, .atom tag, v] =>
+    match parseCfg cfgS, parseTyDef td, parseHexStr tag, parseVal v with
+    | some c, some d, some t, some v =>
+      (match buildTop c d t with
+       | .ok ty =>
+         let data := marshal ty (coerceIn ty v)
+         (match Alias.unmarshalL ty data (Alias.lift ty.zero) with
+          | .ok lv =>
+            let before := showValT ty (Alias.observe data lv)
+            let after := showValT ty (Alias.observe (data.map fun _ => 170) lv)
+            if before == after then "ok " ++ after else s!"ok {after} CHANGED-FROM {before}"
+          | .err => "err" | .panic => "panic" | .hang => "hang")
+       | _ => "builderr")
+    | _, _, _, _ => "bad-op"
   -- C15: (jsonout (calls…) (calls…) …): one batch per Done()/Reset() cycle
   | .list (.atom "jsonout" :: batches) =>
     match batches.mapM (fun b => match b with | .list cs => cs.mapM parseCall | _ => none) with
@@ -106,7 +170,12 @@ def runOp (s : Sexp) : String :=
     match parseCfg cfgS, parseTyDef td, parseHexStr tag, parseVal v with
     | some c, some d, some t, some v =>
       (match buildTop c d t with
-       | .ok ty => "ok " ++ hexOf (marshal ty (coerceIn ty v))
+       | .ok ty =>
+         let v := coerceIn ty v
+         let m := marshal ty v
+         -- the independent format specification must give the same bytes (C02.marshal_eq_spec)
+         if Spec.encode ty v == m then "ok " ++ hexOf m
+         else s!"ok {hexOf m} SPEC-MISMATCH {hexOf (Spec.encode ty v)}"
        | e => showRes (fun _ => "") e)
     | _, _, _, _ => "bad-op"
   | .list [.atom "dec", cfgS, td, .atom tag, .atom h, prior] =>
@@ -119,6 +188,19 @@ def runOp (s : Sexp) : String :=
            | s => (parseVal s).map (coerceIn ty)
          (match p with
           | some p => showRes (showValT ty) (unmarshal ty data p)
+          | none => "bad-op")
+       | _ => "builderr")
+    | _, _, _, _ => "bad-op"
+  | .list [.atom "decm", cfgS, td, .atom tag, v, prior] =>
+    match parseCfg cfgS, parseTyDef td, parseHexStr tag, parseVal v with
+    | some c, some d, some t, some v =>
+      (match buildTop c d t with
+       | .ok ty =>
+         let p := match prior with
+           | .atom "zero" => some ty.zero
+           | s => (parseVal s).map (coerceIn ty)
+         (match p with
+          | some p => showRes (showValT ty) (unmarshal ty (marshal ty (coerceIn ty v)) p)
           | none => "bad-op")
        | _ => "builderr")
     | _, _, _, _ => "bad-op"
